@@ -12,7 +12,7 @@ use crate::{
         DisplayCalendar, ResolvedRoundingOptions, RoundingOptions, ToStringRoundingOptions, Unit,
         UnitGroup,
     },
-    parsers::{parse_date_time, IxdtfStringBuilder},
+    parsers::{parse_date_time, IxdtfStringBuilder, Precision},
     primitive::FiniteF64,
     provider::{NeverProvider, TimeZoneProvider},
     MonthCode, TemporalError, TemporalResult, TemporalUnwrap, TimeZone,
@@ -74,9 +74,13 @@ pub struct PlainDateTime {
 
 impl core::fmt::Display for PlainDateTime {
     fn fmt(&self, f: &mut core::fmt::Formatter<'_>) -> core::fmt::Result {
-        let ixdtf_str = self
-            .to_ixdtf_string(ToStringRoundingOptions::default(), DisplayCalendar::Auto)
-            .expect("ixdtf default configuration should not fail.");
+        // NOTE: the default configuration does not round; the fields are written as they are, so that
+        // no value (not even midnight of the first date, which `From<PlainDate>` can produce) fails.
+        let ixdtf_str = IxdtfStringBuilder::default()
+            .with_date(self.iso.date)
+            .with_time(self.iso.time, Precision::Auto)
+            .with_calendar(self.calendar.identifier(), DisplayCalendar::Auto)
+            .build();
         f.write_str(&ixdtf_str)
     }
 }
